@@ -431,7 +431,7 @@ def finish(run, level='model_checking', rule='', exhaustive=False, extra_cov=Non
     os.makedirs(evdir, exist_ok=True)
     with open(os.path.join(evdir, run.prop + '.json'), 'w') as f:
         json.dump(ev, f, indent=1, sort_keys=True)
-    if rc == 0:
+    if rc == 0 or not os.environ.get('VERIF_KEEP'):     # the replay files are self-contained; keep the work dir only on request
         run.cleanup()
     print('%s %s: %d observations judged, %d trace lines, %d TLC states; %d violations, %d known-finding hits; %.0fs' % (
         run.prop, run.tier, run.observations, run.traces, run.states, len(run.violations),
